@@ -52,6 +52,11 @@ CLAIMED = {
          "Generated-input search with a line-discipline lint, a round trip on folded values and a metamorphic relation over producer chunkings; all sampled.",
          "Header lines > 78 with a folding opportunity inside MIME *part* headers (written through multipart.CreatePart) are a recorded known finding (part-header-unfolded), excluded by signature and counted; the 78 rule is enforced without exception on top-level header sections, all other rules on all sections and bodies.",
          "DESIGN.md section 3, C18"),
+ "C19": ("fault_enumeration",
+         "enumeration of every failure point (each step id of the recorded fault-free dialogue x {4yz, 5yz, drop, garbage}, missing STARTTLS/AUTH, foreign mechanisms, untrusted certificate) across TLS policies x auth types x DialWithContext/DialAndSend, plus rapid multi-fault scripts; oracle: Close was called on the tracking net.Conn handed out through WithDialContextFunc",
+         "The enumerated space (policy x auth x capability variant x call x step x outcome) is covered completely in thorough (garbage replies only at greet/starttls in quick); multi-fault scripts are sampled.",
+         "Connections are in-memory conns injected through WithDialContextFunc, so the default dialers (net.Dialer, tls.Dialer for implicit TLS) are not exercised; Close on the tracking conn is the oracle, not server-side EOF.",
+         "DESIGN.md section 3, C19"),
  "C20": ("fault_enumeration",
          "reply injection (codes 400..599 x text kinds x positions MAIL/RCPT subset/DATA/end-of-data/RSET x batches x ESC advertised or not) against the reference server; oracle: a model computed from the replies the server actually sent (reason, code, temporariness, enhanced code, rejected recipients, per-message and joined errors)",
          "Thorough enumerates all 200 reply codes x 5 positions x ENHANCEDSTATUSCODES on/off x 4 text kinds for a single message completely; batches with several faults are sampled by rapid (quick: sampled only).",
